@@ -112,6 +112,11 @@ pub trait System: Sync {
     fn may_inject(&self, _obj: &Self::Obj) -> bool {
         false
     }
+    /// Is `op` within the contract in this state?  Used when a fixed history is continued after an
+    /// injected panic changed which of its later steps are still in contract.
+    fn step_allowed(&self, _obj: &Self::Obj, _op: u32) -> bool {
+        true
+    }
     /// Differential twin: a freshly constructed object driven by the suffix after the last clear.
     fn twin(&self, _hist: &[Step], _cx: &mut Cx) -> Option<Self::Obj> {
         None
@@ -623,34 +628,7 @@ pub fn explore<S: System>(sys: &S, cfg: &Config) -> Report {
     rt::hist_idle();
     rep.levels.push(frontier.len() as u64);
 
-    // watchdog
-    let done = std::sync::Arc::new(AtomicBool::new(false));
-    {
-        let done = done.clone();
-        let hang = cfg.hang_secs;
-        std::thread::spawn(move || {
-            let slots = rt::slots();
-            let mut last: Vec<(u64, Instant)> = slots.iter().map(|s| (s.beat.load(Ordering::Relaxed), Instant::now())).collect();
-            while !done.load(Ordering::Relaxed) {
-                std::thread::sleep(std::time::Duration::from_millis(500));
-                for (i, s) in slots.iter().enumerate() {
-                    let b = s.beat.load(Ordering::Relaxed);
-                    if b != last[i].0 || !s.busy.load(Ordering::Relaxed) {
-                        last[i] = (b, Instant::now());
-                    } else if last[i].1.elapsed().as_secs() >= hang {
-                        let hist = rt::fmt_hist(&rt::slot_history(s));
-                        let (prop, sys) = rt::RUN.get().map(|r| (r.prop.clone(), r.sys_name.clone())).unwrap_or_default();
-                        let kind = op_kind(hist.last().map(|s| s.as_str()).unwrap_or(""));
-                        let sig = format!("{sys}/{kind}/hang");
-                        let path = rt::write_replay(&prop, &sig, &format!("operation did not return within {hang} s (non-terminating loop)"), &hist, "");
-                        rt::print_line(&format!("HANG signature={sig}"));
-                        rt::print_line(&format!("VIOLATION property={prop} replay={path}"));
-                        std::process::exit(1);
-                    }
-                }
-            }
-        });
-    }
+    let done = spawn_watchdog(cfg.hang_secs);
 
     let mut depth = 0u32;
     let mut capped = String::new();
@@ -893,12 +871,14 @@ pub fn replay<S: System>(sys: &S, steps: &[String]) -> Result<Vec<(String, Strin
 
 /// Drive a finite family of deterministic histories through the same step / oracle pipeline as
 /// the search (no state merging: every history is executed once, every prefix state is checked).
-pub fn run_histories<S: System>(sys: &S, hists: &[Vec<String>], threads: usize) -> Report {
+pub fn run_histories<S: System>(sys: &S, hists: &[Vec<String>], threads: usize, inject: bool) -> Report {
     let t0 = Instant::now();
+    let wd = spawn_watchdog(20);
     let next = AtomicUsize::new(0);
     struct Out {
         fps: HashSet<u128>,
         transitions: u64,
+        injections: u64,
         nontrivial: u64,
         evals: u64,
         counters: HashMap<&'static str, u64>,
@@ -911,7 +891,7 @@ pub fn run_histories<S: System>(sys: &S, hists: &[Vec<String>], threads: usize) 
                 let next = &next;
                 sc.spawn(move || {
                     rt::set_worker(w);
-                    let mut o = Out { fps: HashSet::new(), transitions: 0, nontrivial: 0, evals: 0, counters: HashMap::new(), viols: HashMap::new(), err: None };
+                    let mut o = Out { fps: HashSet::new(), transitions: 0, injections: 0, nontrivial: 0, evals: 0, counters: HashMap::new(), viols: HashMap::new(), err: None };
                     let mut cx = Cx::new();
                     let mut buf = vec![];
                     loop {
@@ -954,9 +934,10 @@ pub fn run_histories<S: System>(sys: &S, hists: &[Vec<String>], threads: usize) 
                             continue;
                         };
                         let mut ok = true;
+                        let mut ncbs: Vec<u32> = vec![];
                         for (k, &st) in steps.iter().enumerate() {
                             rt::hist_push(st.enc());
-                            sys.step(&mut obj, st, &mut cx);
+                            ncbs.push(sys.step(&mut obj, st, &mut cx));
                             o.transitions += 1;
                             if cx.viols.is_empty() && !cx.halt {
                                 rt::hist_push(OBSERVE_MARK);
@@ -981,6 +962,58 @@ pub fn run_histories<S: System>(sys: &S, hists: &[Vec<String>], threads: usize) 
                                 file(&mut cx, &steps, &mut o);
                             }
                             cx.halt = false;
+                        }
+                        // fault enumeration: a panic at every callback invocation of every step, then the rest of the history
+                        if ok && inject {
+                            'inj: for k in 0..steps.len() {
+                                for i in 0..ncbs[k] {
+                                    cx.muted = true;
+                                    let pre = rebuild(sys, &steps[..k], &mut cx);
+                                    cx.muted = false;
+                                    let Some(mut ob) = pre else {
+                                        o.err = Some("replay of a validated prefix failed (family injection)".into());
+                                        return o;
+                                    };
+                                    let mut cur: Vec<Step> = steps[..k].to_vec();
+                                    let ist = Step { op: steps[k].op, inj: i };
+                                    cur.push(ist);
+                                    rt::hist_push(ist.enc());
+                                    sys.step(&mut ob, ist, &mut cx);
+                                    o.injections += 1;
+                                    let mut bad = !cx.viols.is_empty() || cx.halt;
+                                    if !bad {
+                                        rt::hist_push(OBSERVE_MARK);
+                                        sys.check_state(&ob, &mut cx);
+                                        cx.classes.clear();
+                                        bad = !cx.viols.is_empty() || cx.halt;
+                                    }
+                                    let mut j = k + 1;
+                                    while !bad && j < steps.len() {
+                                        if !sys.step_allowed(&ob, steps[j].op) {
+                                            j += 1;
+                                            continue;
+                                        }
+                                        rt::hist_push(steps[j].enc());
+                                        cur.push(steps[j]);
+                                        sys.step(&mut ob, steps[j], &mut cx);
+                                        o.transitions += 1;
+                                        if cx.viols.is_empty() && !cx.halt {
+                                            sys.check_state(&ob, &mut cx);
+                                            cx.classes.clear();
+                                        }
+                                        bad = !cx.viols.is_empty() || cx.halt;
+                                        j += 1;
+                                    }
+                                    if bad {
+                                        cx.halt = false;
+                                        let had = !cx.viols.is_empty();
+                                        file(&mut cx, &cur, &mut o);
+                                        if had {
+                                            break 'inj;
+                                        }
+                                    }
+                                }
+                            }
                         }
                     }
                     rt::hist_idle();
@@ -1015,6 +1048,7 @@ pub fn run_histories<S: System>(sys: &S, hists: &[Vec<String>], threads: usize) 
     for o in outs {
         fps.extend(o.fps);
         rep.transitions += o.transitions;
+        rep.injections += o.injections;
         rep.nontrivial += o.nontrivial;
         rep.evals += o.evals;
         for (k, v) in o.counters {
@@ -1052,5 +1086,37 @@ pub fn run_histories<S: System>(sys: &S, hists: &[Vec<String>], threads: usize) 
         rep.samples.push(json::arr_str(&short));
     }
     rep.wall_s = t0.elapsed().as_secs_f64();
+    wd.store(true, Ordering::Relaxed);
     rep
+}
+
+
+/// Watchdog: an operation that does not return within `hang` seconds is reported as a hang
+/// (non-terminating loop) with the history in flight, and the process exits 1.
+pub fn spawn_watchdog(hang: u64) -> std::sync::Arc<AtomicBool> {
+    let done = std::sync::Arc::new(AtomicBool::new(false));
+    let d2 = done.clone();
+    std::thread::spawn(move || {
+        let slots = rt::slots();
+        let mut last: Vec<(u64, Instant)> = slots.iter().map(|s| (s.beat.load(Ordering::Relaxed), Instant::now())).collect();
+        while !d2.load(Ordering::Relaxed) {
+            std::thread::sleep(std::time::Duration::from_millis(500));
+            for (i, s) in slots.iter().enumerate() {
+                let b = s.beat.load(Ordering::Relaxed);
+                if b != last[i].0 || !s.busy.load(Ordering::Relaxed) {
+                    last[i] = (b, Instant::now());
+                } else if last[i].1.elapsed().as_secs() >= hang {
+                    let hist = rt::fmt_hist(&rt::slot_history(s));
+                    let (prop, sys) = rt::RUN.get().map(|r| (r.prop.clone(), r.sys_name.clone())).unwrap_or_default();
+                    let kind = op_kind(hist.last().map(|s| s.as_str()).unwrap_or(""));
+                    let sig = format!("{sys}/{kind}/hang");
+                    let path = rt::write_replay(&prop, &sig, &format!("operation did not return within {hang} s (non-terminating loop)"), &hist, "");
+                    rt::print_line(&format!("HANG signature={sig} message=operation did not return within {hang} s (non-terminating loop)"));
+                    rt::print_line(&format!("VIOLATION property={prop} replay={path}"));
+                    std::process::exit(1);
+                }
+            }
+        }
+    });
+    done
 }
